@@ -30,7 +30,9 @@ Chk_Established ==
         /\ r.cfg.pre = "none" => r.pre_count = 0
         /\ r.cfg.pre \in {"stale", "unrelated"} => r.pre_count > 0
         /\ r.cfg.cache = "cold" => r.cache_before = 0
-        /\ r.cfg.cache = "warm" => r.cache_before > 0
+        \* warm: the harness left the cache as the previous run left it (a run that fails before the model is loaded
+        \* leaves nothing, so "warm" cannot demand a non-empty cache)
+        /\ r.cfg.cache = "warm" /\ a > 1 => r.cache_before = Runs(i)[a - 1].cache_after
 
 NRuns == LET RECURSIVE S(_) S(n) == IF n = 0 THEN 0 ELSE Len(Runs(n)) + S(n - 1) IN S(Len(Obs))
 NFailing == Cardinality({n \in 1..Len(Obs) : Runs(n)[1].rc # 0})
